@@ -611,6 +611,12 @@ func (i *Install) replaceRelease(rel *release.Release) error {
 		return nil
 	}
 
+	// The name check has passed, but another operation has created the last revision
+	// since and is still working on it: do not supersede its record.
+	if last.Info.Status.IsPending() {
+		return errPending
+	}
+
 	// For any other status, mark it as superseded and store the old record
 	last.SetStatus(release.StatusSuperseded, "superseded by new release")
 	return i.recordRelease(last)
